@@ -23,6 +23,7 @@
 #include <osmium/io/reader.hpp>
 #include <osmium/osm.hpp>
 
+#include <sys/prctl.h>
 #include <sys/stat.h>
 #include <cxxabi.h>
 
@@ -234,6 +235,7 @@ struct Proc {
         pid = fork();
         if (pid < 0) return false;
         if (pid == 0) {
+            prctl(PR_SET_PDEATHSIG, SIGKILL);
             dup2(out[1], 1); close(out[0]); close(out[1]);
             if (want_stdin) { dup2(in[0], 0); close(in[0]); close(in[1]); }
             else { int dn = open("/dev/null", O_RDONLY); dup2(dn, 0); }
@@ -370,12 +372,31 @@ static void server_start() {
     if (!g_server.start({python(), "-B", std::string(C02_DIR) + "/gen.py", "serve"}, true)) die("cannot start gen.py serve");
 }
 
+static const Args* g_args = nullptr;
+static int g_minimisations = 0;
+
+// no time (or budget) left to minimise: report the case as it is under a key that says so; replaying "nomin:<spec>"
+// evaluates without minimisation and gives the same key
+static void report_unminimised(const Case& c, const Outcome& o) {
+    const std::string fam = c.spec.substr(0, c.spec.find('|'));
+    ++C["failing_cases_not_minimised"];
+    V.report(fam + "/" + o.kind + "/unminimised", "case " + c.spec + ": " + o.detail, "nomin:" + c.spec);
+}
+
 static std::string shorten_hex(const std::string& data) { return data.size() <= 96 ? benum::hex(data) : benum::hex(data.substr(0, 96)) + "...(" + std::to_string(data.size()) + " bytes)"; }
 
 // a case failed: let the generator minimise it; report under the canonical key
 static void report_failure(const Case& c, const Outcome& o) {
     ++C["failing_cases"];
     server_start();
+    if ((g_args && g_args->expired()) || g_minimisations >= 60) {
+        // no time or budget left to minimise: only ask whether the case belongs to a class found before
+        g_server.send("SUB\t" + c.spec + "\t" + o.kind);
+        Frame fr;
+        if (!read_frame(g_server.from, fr) || fr.tag != "KEY ") die("generator (serve) gave no answer to SUB");
+        if (fr.f[2] == "subsumed") ++C["failing_cases_same_class_as_reported"]; else report_unminimised(c, o);
+        return;
+    }
     g_server.send("MIN\t" + c.spec + "\t" + o.kind);
     Case last = c; Outcome lasto = o;
     std::map<std::string, std::pair<Case, Outcome>> tried;
@@ -383,12 +404,18 @@ static void report_failure(const Case& c, const Outcome& o) {
         Frame fr;
         if (!read_frame(g_server.from, fr)) die("generator (serve) closed the pipe during minimisation of " + c.spec);
         if (fr.tag == "REC ") {
+            if (g_args && !g_args->replay && g_args->expired()) {      // out of time in the middle: give up on this one
+                g_server.stop();
+                report_unminimised(c, o);
+                return;
+            }
             Case t = case_of(fr);
             Outcome to = evaluate(t);
             tried[t.spec] = {t, to};
             g_server.send("RES\t" + to.kind);
         } else if (fr.tag == "KEY ") {
             if (fr.f[2] == "subsumed") { ++C["failing_cases_same_class_as_reported"]; return; }
+            ++g_minimisations;
             const std::string& minspec = fr.f[1];
             auto it = tried.find(minspec);
             if (it != tried.end()) { last = it->second.first; lasto = it->second.second; }
@@ -453,7 +480,7 @@ static void process_group(const std::vector<Case>& grp) {
     }
     if (objs.size() >= 2 && !objs[0].empty()) ++C["distinct_nontrivial"];
     ++C["matched"];
-    if (g_sampler && g_sampler->want(g_rank)) benum::sample(grp[0].group.substr(0, grp[0].group.find('#')) + ": " + std::to_string(objs.size()) + " readers agree on " + std::to_string(lines(objs[0]).size()) + " objects");
+    if (g_sampler && !objs[0].empty() && grp[0].group.find("profile") != std::string::npos && g_sampler->want(g_rank)) benum::sample(grp[0].group.substr(0, grp[0].group.find('#')) + ": " + std::to_string(objs.size()) + " readers agree on " + std::to_string(lines(objs[0]).size()) + " objects");
 }
 
 // ------------------------------------------------------------------------------------------------
@@ -475,7 +502,8 @@ static void cleanup_dir() {
 
 static int worker(const Args& a, const std::string& part, uint64_t skip) {
     setup_dir(a, part);
-    benum::Sampler sampler(a.seed, 2, 997);
+    g_args = &a;
+    benum::Sampler sampler(a.seed + a.shard, a.shard % 4 == 0 ? 1 : 0, 211);
     g_sampler = &sampler;
     Proc gen;
     if (!gen.start({python(), "-B", std::string(C02_DIR) + "/gen.py", "enum", "--part", part, "--tier", a.thorough ? "thorough" : "quick",
@@ -531,6 +559,7 @@ static void run_part(const Args& a, const std::string& part) {
         pid_t pid = fork();
         if (pid < 0) die("fork");
         if (pid == 0) {
+            prctl(PR_SET_PDEATHSIG, SIGKILL);
             int fd = open(errpath.c_str(), O_WRONLY | O_CREAT | O_TRUNC, 0600);
             if (fd >= 0) { dup2(fd, 2); close(fd); }
             _exit(worker(a, part, skip));
@@ -557,6 +586,7 @@ static void run_part(const Args& a, const std::string& part) {
         V.report(fam + "/crash/" + benum::death_class(what, err), "the reader died on case " + spec + " (" + what + ")", spec);
         skip = g_sh->index;      // continue behind the fatal case
         complete = false;
+        if (part == "agree") break;   // (groups of records: no resuming in the middle)
     }
     benum::bound("part " + part + (a.thorough ? " (thorough plan)" : " (quick plan)") + ": every case of the generator's plan for this tier", complete);
 }
@@ -564,7 +594,10 @@ static void run_part(const Args& a, const std::string& part) {
 // replay of one spec: build the case (or the group), evaluate, minimise, print the VIOL again
 static void replay(const Args& a) {
     setup_dir(a, "replay");
-    const std::string spec = a.replay_spec;
+    g_args = &a;
+    std::string spec = a.replay_spec;
+    const bool nomin = spec.compare(0, 6, "nomin:") == 0;
+    if (nomin) spec = spec.substr(6);
     const std::string fam = spec.substr(0, spec.find('|'));
     server_start();
     if (fam == "agree") {
@@ -580,7 +613,7 @@ static void replay(const Args& a) {
             Case c = case_of(fr);
             const Outcome o = evaluate(c);
             printf("NOTE\treplay %s: %s %s\n", spec.c_str(), o.kind.empty() ? "matches" : o.kind.c_str(), benum::clean(o.detail, 600).c_str());
-            if (!o.kind.empty() && c.tri.empty()) report_failure(c, o);
+            if (!o.kind.empty() && c.tri.empty()) { if (nomin) report_unminimised(c, o); else report_failure(c, o); }
         } else printf("NOTE\tspec not encodable: %s\n", fr.f.size() > 1 ? fr.f[1].c_str() : "");
     }
     g_server.stop();
@@ -589,6 +622,7 @@ static void replay(const Args& a) {
 
 int main(int argc, char** argv) {
     setenv("OSMIUM_POOL_THREADS", "2", 0);
+    setenv("C02_DATA", C02_DATA, 1);          // the generator keeps its covering arrays there
     signal(SIGPIPE, SIG_IGN);
     Args a = benum::parse_args(argc, argv);
     if (a.replay) {
